@@ -82,6 +82,7 @@ PROPS["C09"] = dict(
         "c09_desc_new_checks_names": dict(cap=1200),
         "c09_desc_new_rejects_duplicate_label_names": dict(cap=1800),
         "c09_desc_new_two_const_one_variable": dict(cap=5400, tier="thorough"),
+        "c09_desc_new_three_variable_labels": dict(cap=2400),
         "c09_histogram_rejects_le": dict(cap=1800),
         "c09_registry_prefix_and_label_names_validated": dict(cap=1800),
         "c09_registry_common_label_clash_refused": dict(cap=1800),
@@ -141,6 +142,7 @@ PROPS["C18"] = dict(
         "c18_shared_one_timer": dict(cap=2400),
         "c18_shared_two_timers": dict(cap=3600, tier="thorough"),
         "c18_local_timer_recorded": dict(cap=2400),
+        "c18_local_timer_with_buffered_observation": dict(cap=2400),
         "c18_local_timer_discarded_or_dropped": dict(cap=2400),
         "c18_observe_closure_duration": dict(cap=2400),
     },
@@ -178,6 +180,7 @@ PROPS["C15"] = dict(
         "c15_id_boundary_shift_21_vs_12": dict(cap=2400),
         "c15_id_boundary_shift_20_vs_11": dict(cap=2400),
         "c15_id_same_shape_22": dict(cap=2400, tier="thorough"),
+        "c15_id_empty_value_position": dict(cap=2400),
         "c15_id_two_const_labels_order_independent": dict(cap=2400),
         "c15_dim_hash_variable_label_sets": dict(cap=2400),
         "c15_dim_hash_const_vs_variable": dict(cap=2400),
@@ -269,6 +272,7 @@ PROPS["C07"] = dict(
         "c07_families_sorted_complete_any_order": dict(cap=2400),
         "c07_prefix_and_common_labels_deterministic": dict(cap=2400),
         "c07_same_name_samples_sorted_by_label_values": dict(cap=2400),
+        "c07_two_label_samples_sorted_by_value_tuples": dict(cap=2400),
     },
     functions=["RegistryCore::gather", "RegistryCore::register"],
     bounds="2-3 collectors returning literal families (1-3 samples, 0-1 labels), sample values symbolic u8; every iteration order of the collector map and of the registry-label map (E6, all n! orders for n <= 3); unwind 6",
